@@ -452,6 +452,10 @@ impl<A: ArenaX> Inst<A> {
             extra = json!({"invalidated": inv, "file_before": {"len": len0, "rle": file0}, "file_after": {"len": len1, "rle": file1},
                            "descr": {"read_only": a2.read_only(), "magic_version": a2.magic_version(), "version": a2.version(),
                                      "kind": debug_kind(a2), "unify": a2.unify(), "is_map_file": a2.is_map_file(),
+                                     "is_map": a2.is_map(), "is_ondisk": a2.is_ondisk(), "is_inmemory": a2.is_inmemory(),
+                                     "is_map_anon": a2.is_map_anon(), "has_path": a2.path_string().is_some(),
+                                     "page_size": a2.page_size(), "os_page_size": unsafe { libc::sysconf(libc::_SC_PAGESIZE) },
+                                     "reserved_bytes": a2.reserved_bytes(), "data_offset": a2.data_offset(),
                                      "reserved_len": a2.reserved_slice().len(), "capacity": a2.capacity()}});
             json!({"k": "ok"})
           }
